@@ -345,23 +345,29 @@ theorem f11_counterexample :
 
 /-! ## one metric object used for several evaluations -/
 
-/-- if `process_data` named the native unit again, label and values of every later result would
-agree whatever happened to the object before -/
-theorem reprocess_with_reset_names_native_unit (native : U) (pe : PE) (vals : List Rat) :
-    (processDataReset native pe vals).unit = native ∧ (processDataReset native pe vals).error = vals ∧
-    (processDataReset native pe vals).piPow = 0 := ⟨rfl, rfl, rfl⟩
+/-- **each evaluation is named after its own data**: after `process_data` the object holds the
+fresh values under the relation's native unit, whatever happened to the object before (earlier
+evaluations, unit changes); a result taken now is labelled with that unit, and a following
+`change_unit` starts from it. -/
+theorem reprocess_names_native_unit (native : U) (pe : PE) (vals : List Rat) :
+    (processData native pe vals).unit = native ∧ (processData native pe vals).error = vals ∧
+    (processData native pe vals).piPow = 0 ∧
+    metricLabel "APE" (processData native pe vals).unit = "APE" ++ " (" ++ native.value ++ ")" ∧
+    ∀ v, changeUnit (processData native pe vals) v = changeUnit { unit := native, error := vals } v :=
+  ⟨rfl, rfl, rfl, rfl, fun _ => rfl⟩
 
-/-- **the code as it is**: `process_data; change_unit(mm); process_data; get_result` — the second
-evaluation's values are the fresh ones, in metres, but the object still says millimetres, so the
-label reads "APE (mm)" over metre values (and a later `change_unit(m)` divides them by 1000). -/
+/-- **the pinned code (before fix 46322c3)**: `process_data; change_unit(mm); process_data;
+get_result` — the second evaluation's values are the fresh ones, in metres, but the object still
+said millimetres, so the label read "APE (mm)" over metre values (and a later `change_unit(m)`
+divided them by 1000). The repaired model names metres. -/
 theorem metric_reuse_keeps_converted_unit_counterexample :
     let pe0 : PE := { unit := apeUnit .translation_part, error := [1] }
     let pe1 := (changeUnit pe0 .millimeters).getD pe0
-    let pe2 := processData pe1 [2]
+    let pe2 := processDataOld pe1 [2]
     pe1 = { unit := .millimeters, error := [1000] } ∧
     pe2 = { unit := .millimeters, error := [2] } ∧ metricLabel "APE" pe2.unit = "APE (mm)" ∧
-    processDataReset (apeUnit .translation_part) pe1 [2] = { unit := .meters, error := [2] } ∧
-    changeUnit pe2 .meters = some { unit := .meters, error := [1 / 500] } := by
+    changeUnit pe2 .meters = some { unit := .meters, error := [1 / 500] } ∧
+    processData (apeUnit .translation_part) pe1 [2] = { unit := .meters, error := [2] } := by
   decide +kernel
 
 /-! ## companion arrays -/
